@@ -240,7 +240,7 @@ CHECKS = {
        "outside the reference.",
   note="Known finding D15 (open): across CRSs the code tests against the bounding box of the re-projected reference. "
        "Cross-CRS footprints are not modelled (PROJ/WarpedVRT geometry); float noise of flush placements in decimal "
-       "geometry is absorbed by the 1e-6 px tolerance of the repaired predicate, which the exact model ignores. Round 10: 3 input(s) found by a bug-hunting sub-agent on the unchanged code (harness/found/C16_demo*.py) are replayed by this check on every run; those that violate the property are listed in known_findings.json by script name (repaired ones must stay quiet).",
+       "geometry is absorbed by the 1e-6 px tolerance of the repaired predicate, which the exact model ignores. Round 10: 3 input(s) found by a bug-hunting sub-agent on the unchanged code (harness/found/C16_demo*.py) are replayed by this check on every run; those that violate the property are listed in known_findings.json by script name (repaired ones must stay quiet). Round 11: the float-noise geometries of finding D14 (south-up source flush with the reference's top, decimal coordinates) as a deterministic leg.",
   tech="Lean 4 proof (linear integer arithmetic, decide over a finite table) + differential correspondence run", ref='7 C16'),
  'C17': dict(
   text="Proof (Lean 4): erosion characterisation, the full-coverage definition (kept iff the pixel and every pixel of the "
